@@ -1,19 +1,33 @@
 #!/bin/bash
 # Runs every seeded change against the check of the property it breaks (and extra checks given in seeded/<id>/also.txt)
-# and writes seeded/RESULTS.md.
+# and writes seeded/RESULTS.md. JOBS (default 4) seeds are evaluated at a time; `tools/seedsweep.sh C01 C01b` limits
+# the sweep to the given seeds (RESULTS.md is then left alone and the lines are only printed).
 cd "$(dirname "$0")/.."
-out=seeded/RESULTS.md
-echo "| seeded change | check | exit | violation keys (first 5) |" > $out
-echo "|---|---|---|---|" >> $out
-for d in seeded/C*/; do
-  sid=$(basename $d)
+jobs=${JOBS:-4}
+tmp=.work/sweep.$$
+mkdir -p $tmp
+if [ $# -gt 0 ]; then seeds="$*"; else seeds=$(ls -d seeded/C*/ | xargs -n1 basename); fi
+one() {
+  sid=$1; tmp=$2
+  d=seeded/$sid
   prop=$(python3 -c "import json;print(json.load(open('$d/meta.json')).get('breaks_property','$sid'))")
   checks="$prop $(cat $d/also.txt 2>/dev/null)"
+  : > $tmp/$sid.md
   for c in $checks; do
     line=$(tools/seedeval.sh $sid $c 2>&1 | tail -1)
     rc=$(echo "$line" | sed -n 's/.* rc=\([0-9]*\) .*/\1/p')
     keys=$(echo "$line" | sed -n 's/.*keys: \(.*\) | .*/\1/p')
-    echo "| $sid | $c | $rc | $keys |" >> $out
-    echo "$sid $c rc=$rc"
+    echo "| $sid | $c | ${rc:-?} | $keys |" >> $tmp/$sid.md
+    echo "$sid $c rc=${rc:-? ($line)}"
   done
-done
+}
+export -f one
+echo $seeds | tr ' ' '\n' | xargs -P $jobs -I{} bash -c "one {} $tmp"
+if [ $# -eq 0 ]; then
+  out=seeded/RESULTS.md
+  echo "| seeded change | check | exit | violation keys (first 5) |" > $out
+  echo "|---|---|---|---|" >> $out
+  for sid in $seeds; do cat $tmp/$sid.md >> $out; done
+  echo "missed (exit != 1):"; grep -v '| 1 |' $out | tail -n +3
+fi
+rm -rf $tmp
